@@ -206,6 +206,32 @@ fn name_fragments(name: &str) -> Vec<&'static str> {
         .collect()
 }
 
+/// C08 (row names): the names of the compiled rows of a NameGen program, in order.
+pub fn rownames_event(case: &Value) -> Value {
+    let mut ev = case.clone();
+    let text = case["text"].as_str().unwrap_or("").to_string();
+    let res = catch_unwind(AssertUnwindSafe(|| {
+        let model = RoocParser::new(text).parse_and_transform(vec![], &IndexMap::new()).map_err(|e| format!("front_error {e}"))?;
+        rooc::Linearizer::linearize(model).map_err(|e| format!("linearization_error {e}"))
+    }));
+    match res {
+        Err(_) => {
+            ev["out"] = json!("panic");
+            ev["rownames"] = json!([]);
+        }
+        Ok(Err(e)) => {
+            ev["out"] = json!(e.split(' ').next().unwrap_or("error"));
+            ev["why"] = json!(e);
+            ev["rownames"] = json!([]);
+        }
+        Ok(Ok(lm)) => {
+            ev["out"] = json!("ok");
+            ev["rownames"] = json!(lm.constraints().iter().map(|c| c.name()).collect::<Vec<_>>());
+        }
+    }
+    ev
+}
+
 pub fn render_event(case: &Value) -> Value {
     let id = case["id"].as_str().unwrap_or("?");
     let model = if let Some(t) = case.get("text").and_then(|t| t.as_str()) {
